@@ -738,6 +738,18 @@ class UnknownURI:
     def to_string(self):
         return self._uri
 
+    def __hash__(self):
+        return hash((self.__class__, self._uri))
+
+    def __eq__(self, them):
+        if isinstance(them, UnknownURI):
+            return self._uri == them._uri
+        else:
+            return False
+
+    def __ne__(self, them):
+        return not (self == them)
+
     def get_readonly(self):
         return None
 
